@@ -2,7 +2,8 @@
 //! fn: pallas_traverse::probe::block_era
 //! fn: pallas_traverse::MultiEraBlock::{era,tx_count,is_empty,has_aux_data}
 //! stub: minicbor::decode::Tokenizer::{new, next} -> 40-line CBOR head model in c30.rs (mod model): Array(n) / U8 / U16 heads exact for 1-3 byte heads, every other item abstracted to "some other token or an error"; anchored by c30_q_era_real_tokens on the real tokenizer (one token, concrete input)
-//! outside: decoding real blocks (MultiEraBlock::decode beyond the wrapper probe), auxiliary-data maps with >= 2 entries
+//! outside: the per-index tx assembly (`clone_tx_fn!` instances, MultiEraBlock::txs): not attempted beyond the design probe (txs() on a heap-held block: no verdict in 600-900 s); the `*_clone_tx_at` hook route of DESIGN.md C30 step (1) was not built -- every C31 experiment that reads ledger values back from a Vec on the heap ended without verdict (see c31.rs), and clone_tx_at does exactly that (`transaction_bodies.get(i).cloned()`). So "i-th tx = i-th body / witness set / aux entry, is_valid iff i not in invalid_transactions" is NOT claimed
+//! outside: decoding real blocks (MultiEraBlock::decode beyond the wrapper probe), auxiliary-data maps with >= 1 entry
 //! outside: block_era oracle = CBOR data model restricted to what minicbor's Tokenizer calls Array(2) and U8: array head of any width with length 2, then an unsigned integer in its 1- or 2-byte form; wider (non-canonical) integer heads for the era tag are reported Inconclusive by design and are accepted as such
 use pallas_traverse::probe::{block_era, Outcome};
 use pallas_traverse::Era;
@@ -200,6 +201,45 @@ fn c30_q_era_real_tokens() {
     kani::cover!(ok1, "reached");
     assert!(ok1 && ok2 && ok3 && ok4, "real tokenizer agrees with the model on array(2) and u8 heads");
 }
+
+// ---- MultiEraBlock::{era, tx_count, is_empty, has_aux_data} on blocks built in the harness
+
+macro_rules! block_counts {
+    ($name:ident, $era:ident, $variant:expr, $expect_era:expr, $header:expr, $body:expr, $wits:expr) => {
+        #[kani::proof]
+        #[kani::unwind(4)]
+        #[kani::stub(std::fmt::format, crate::stubs::fmt_format_stub)]
+        fn $name() {
+            use pallas_codec::utils::KeepRaw;
+            let two: bool = kani::any();
+            let bodies = if two { vec![KeepRaw::from($body), KeepRaw::from($body)] } else { Vec::new() };
+            let wits = if two { vec![KeepRaw::from($wits), KeepRaw::from($wits)] } else { Vec::new() };
+            let b = pallas_primitives::$era::Block {
+                header: KeepRaw::from($header),
+                transaction_bodies: bodies,
+                transaction_witness_sets: wits,
+                auxiliary_data_set: std::collections::BTreeMap::new(),
+                invalid_transactions: None,
+            };
+            let mb = $variant(Box::new(b));
+            let n = mb.tx_count();
+            let e = mb.era();
+            let empty = mb.is_empty();
+            let aux = mb.has_aux_data();
+            core::mem::forget(mb);
+            kani::cover!(two, "two transactions");
+            kani::cover!(!two, "no transactions");
+            assert!(n == if two { 2 } else { 0 }, "tx_count is the number of bodies");
+            assert!(empty == !two, "is_empty iff there is no body");
+            assert!(e == $expect_era, "era() is the era of the block variant");
+            assert!(!aux, "no auxiliary data");
+        }
+    };
+}
+// bound: block built in the harness with 0 or 2 (symbolic choice) minimal bodies / witness sets, no aux data, no invalid list; unwind 4
+block_counts!(c30_q_counts_conway, conway, pallas_traverse::MultiEraBlock::Conway, Era::Conway, crate::build::babbage_header(0), crate::build::conway_body(0), crate::build::conway_wits());
+block_counts!(c30_q_counts_babbage, babbage, pallas_traverse::MultiEraBlock::Babbage, Era::Babbage, crate::build::babbage_header(0), crate::build::babbage_body(0), crate::build::babbage_wits());
+block_counts!(c30_q_counts_alonzo, alonzo, (|b| pallas_traverse::MultiEraBlock::AlonzoCompatible(b, Era::Mary)), Era::Mary, crate::build::alonzo_header(0), crate::build::alonzo_body(0), crate::build::alonzo_wits());
 
 /// vacuity twin: must come back FAILED
 #[kani::proof]
